@@ -195,6 +195,9 @@ def instances(tier):
             out.append(dict(id="whole-step-%s-dof%d" % (nm, dof), kind="whole", cls=nm, dof=dof, budget=b))
     out.append(dict(id="mask-constructor", kind="mask_ctor", cls="SymplecticEulerSolver", budget=b))
     out.append(dict(id="mask-set_kick_vars", kind="mask_ode", cls="SymplecticEulerSolver", budget=b))
+    # matrix-shaped state, one row per particle: y[i] = (q_i, p_i); the kick mask [[F, T], [F, T]] varies along the TRAILING axis
+    # (whole-step identity with 2 degrees of freedom: feasible for the 2-stage scheme only, see DESIGN 3/C10; the mask plumbing is shared by the three classes)
+    out.append(dict(id="mask-matrix-rows-SymplecticEulerSolver", kind="mask_matrix", cls="SymplecticEulerSolver", budget=b))
     for nm in (("SymplecticEulerSolver",) if quick else ("SymplecticEulerSolver", "ABAs5o6HSolver")):
         out.append(dict(id="mask-default-after-custom-%s" % nm, kind="mask_default_after_custom", cls=nm, budget=b))
     for nm in ("GaussLegendre4", "GaussLegendre6", "ImplicitMidpoint"):
@@ -294,6 +297,9 @@ def scenario(c, inst):
     if kind == "unsolved":
         from . import c02_step as C02
         return C02.scenario(c, inst)
+    if kind == "mask_matrix":
+        _mask_matrix(c, inst)
+        return
     if kind == "mask_default_after_custom":
         _mask_default_after_custom(c, inst)
         return
@@ -398,6 +404,37 @@ def _reverse(c, inst):
                 if st == "ok":
                     c.check("c10.step_map_does_not_depend_on_integrator_history", c.all([c.eq(u, v, scale) for u, v in zip(flat(c, r[1][1]), flat(c, dY))]),
                             info=dict(cls=inst["cls"], round_trip=trip))
+
+
+def _mask_matrix(c, inst):
+    """state of shape (2, 2), rows (q_i, p_i), user mask [[F, T], [F, T]] handed to the constructor: one step is symplectic w.r.t. the
+    pairing (q_i, p_i) - every stage advances either the positions or the momenta, never both"""
+    cls = _cls(inst["cls"])
+    shape = (2, 2)
+    kick2 = np.array([[False, True], [False, True]])
+    kick = [bool(x) for x in kick2.reshape(-1)]            # flat (C order) layout: q0, p0, q1, p1
+    n = 4
+    t, h = c.real("t"), c.real("h")
+    c.assume(h != 0)
+    dt_ = np.dtype(object)
+    st, integ = run(lambda: cls(shape, dtype=dt_, staggered_mask=kick2))
+    c.case()
+    c.check("c10.mask.constructor_accepts_a_matrix_mask", st == "ok", info=repr(integ)[:200])
+    if st != "ok":
+        return
+    flat_rhs = SeparableDualRhs(c, kick)
+
+    def rhs(t_, y_, **kw):
+        return flat_rhs(t_, np.asarray(y_, dtype=object).reshape(-1), **kw).reshape(shape)
+    y0 = _state(c, n).reshape(shape)
+    st, r = run(integ, rhs, t, y0, {}, h)
+    if st != "ok":
+        c.check("c10.mask.step_runs", False, info=repr(r))
+        return
+    _, (dT, dY) = r
+    y1 = [Dual.lift(a_, n) + Dual.lift(b_, n) for a_, b_ in zip(list(np.asarray(y0, dtype=object).reshape(-1)), list(np.asarray(dY, dtype=object).reshape(-1)))]
+    defect = _symplectic_defect(_grad_matrix(y1), _J(n, kick))
+    c.check("c10.mask.step_with_matrix_mask_is_symplectic", c.all([_zero(c, x) for x in defect]))
 
 
 def _mask_default_after_custom(c, inst):
